@@ -802,6 +802,10 @@ def wrapped_method(F, e, at):
 
     Returns (method name, args expr or None)."""
     args = None
+    if isinstance(e, ast.Name):          # wrapper built in a temporary
+        v, d = F.value_of(at, e.id)
+        if v is not None:
+            e, at = v, d
     if isinstance(e, ast.Call) and astx.callee_attr(e) == 'signature_extender' and len(e.args) == 2:
         args = e.args[1]
         e = e.args[0]
@@ -1549,6 +1553,22 @@ def newbounds(repo, out):
             elif not okn or not oki or em['dbl'] is not False:
                 out.bad(where, em['args'], f"args {astx.src(em['args'])} must be [name, False, {F.idx_var}]",
                         key='args-new')
+        if per_elem and em['fun'] is not None:
+            # scipy compares fun(x) with lb/ub itself: the value callback must hand back the bare value
+            cb = callback(repo, em['fun'], R.F.slots)
+            kinds = set()
+            for st in STATES:
+                s2 = dict(st, dbl=em['dbl'])
+                rets_, fell_ = cb.returns(s2)
+                for r in rets_:
+                    vf = cb.value_form(r, s2)
+                    kinds.add(None if vf is None else vf[0])
+            if None in kinds:
+                out.unsure(where, call, f"cannot recognise what {em['fun']} returns")
+            elif kinds != {'raw'}:
+                out.bad(where, call, f"{em['fun']} returns the value with a bound already subtracted "
+                        f"({sorted(kinds - {'raw'})}) but scipy compares it with lb/ub again: the bound is applied twice",
+                        key='new-fun-not-raw')
         for kw, want in (('lb', 'lower'), ('ub', 'upper')):
             e = astx.kwarg(call, kw)
             if e is None:
@@ -1637,7 +1657,7 @@ def linear(repo, out):
         F, at = em['F'], em['at']
         F.idx_var = None
         for kw in ('lb', 'ub'):
-            e = astx.kwarg(call, kw)
+            e = astx.arg(call, {'lb': 1, 'ub': 2}[kw], kw)
             if e is None:
                 continue
             r = roles(F, e, at, None)
@@ -1971,9 +1991,22 @@ def status(repo, out):
             out.ok(fn, ok_rr[0].ast, '`if self._exc_info is not None: self._reraise()` dominates every status assignment')
     # return value
     rets = [s for s in astx.walk_stmts(fn.node.body) if isinstance(s, ast.Return)]
-    if rets and all(astx.path(r.value) == 'self.fail' for r in rets):
+    def returns_fail(r):
+        if astx.path(r.value) == 'self.fail':
+            return True
+        if isinstance(r.value, ast.Name):       # a local bound together with / from self.fail
+            ds = F.describe_defs(F.at(r), r.value.id)
+            return bool(ds) and all(
+                d.kind == 'stmt' and isinstance(d.ast, ast.Assign) and
+                (any(astx.path(t) == 'self.fail' for t in d.ast.targets) or astx.path(d.ast.value) == 'self.fail')
+                for k, p, d in ds)
+        return False
+    if rets and all(returns_fail(r) for r in rets):
         out.ok(fn, rets[0], f'run() returns self.fail ({len(rets)} return statement(s))')
-    elif any(isinstance(r.value, ast.Constant) for r in rets):
+    elif any(isinstance(r.value, ast.Constant) or (
+            isinstance(r.value, ast.Name) and F.describe_defs(F.at(r), r.value.id) and all(
+                k == 'expr' and isinstance(p, ast.Constant) for k, p, d in F.describe_defs(F.at(r), r.value.id)))
+            for r in rets):
         out.bad(fn, rets[0], 'run() returns a constant instead of self.fail', key='return-fail')
     else:
         out.unsure(fn, fn.node, 'unrecognised return of run()')
@@ -2472,6 +2505,22 @@ def _builder_shape(call_args='name, j, lb[j], ub[j]', lb_clamp='np.maximum(lb_j,
                                 (_S, _LBUB_OLD, f"                    lb, ub = {lbub}\n")])
 
 
+def _temps_shape(fun='_con_val_func', lin='lb, ub'):
+    """fun/jac wrappers in temporaries, object built inside the append, LinearConstraint called positionally (benign C21_b3_2)."""
+    body = ("                            args = [name, False, j]\n"
+            "                            lb_j = np.maximum(lb[j], -INF_BOUND)\n"
+            "                            ub_j = np.minimum(ub[j], INF_BOUND)\n"
+            f"                            con_fun = signature_extender(WeakMethodWrapper(self, '{fun}'), args)\n"
+            "                            con_jac = signature_extender(WeakMethodWrapper(self, '_congradfunc'), args)\n"
+            "                            constraints.append(NonlinearConstraint(fun=con_fun, lb=lb_j, ub=ub_j,\n"
+            "                                                                   jac=con_jac))\n")
+    return dict(new=body, also=[
+        (_S, "                        con = LinearConstraint(A=lincongrad[self._con_idx[name]],\n"
+             "                                               lb=lb, ub=ub, keep_feasible=True)\n",
+         "                        lin_row = self._con_idx[name]\n"
+         f"                        con = LinearConstraint(lincongrad[lin_row], {lin}, keep_feasible=True)\n")])
+
+
 _STATUS_OLD = ("        if hasattr(result, 'success'):\n"
                "            self.fail = not result.success\n"
                "            if self.fail:\n"
@@ -2538,6 +2587,23 @@ def _lookup_helper(ret="meta['total_scaler'], meta['total_adder']"):
 
 selftest(
     'C21',
+    # ---- third robustness round: wrappers in temporaries, positional LinearConstraint, returned alias of self.fail
+    Twin('twin-wrapper-temporaries-positional-linear', _S, _NL_BODY_OLD, **_temps_shape()),
+    Mutant('newbounds-temps-fun-is-confunc', _S, _NL_BODY_OLD, expect='C21.newbounds', **_temps_shape(fun='_confunc')),
+    Mutant('newbounds-positional-linear-swapped', _S, _NL_BODY_OLD, expect='C21.newbounds', **_temps_shape(lin='ub, lb')),
+    Mutant('linear-positional-bare-lower', _S, _NL_BODY_OLD, expect='C21.linear', **_temps_shape(lin='lower, ub')),
+    Mutant('sign-temps-still-checked', _S, _NL_BODY_OLD, expect='C21.sign',
+           **{**_temps_shape(), 'also': _temps_shape()['also'] + [
+               (_S, "        if meta['equals'] is not None:\n            return grad[grad_idx, :]",
+                "        if meta['equals'] is not None:\n            return -grad[grad_idx, :]")]}),
+    Twin('twin-status-alias-returned', _S, "            self.fail = not result.success\n            if self.fail:\n",
+         "            self.fail = failed = not result.success\n            if failed:\n",
+         also=[(_S, "            self.fail = True  # It is not known", "            self.fail = failed = True  # It is not known"),
+            (_S, "        return self.fail\n\n    def _objfunc", "        return failed\n\n    def _objfunc")]),
+    Mutant('status-alias-constant-returned', _S, "            self.fail = not result.success\n            if self.fail:\n",
+           "            self.fail = not result.success\n            failed = False\n            if self.fail:\n", 'C21.status',
+           also=[(_S, "            self.fail = True  # It is not known", "            failed = False\n            self.fail = True  # It is not known"),
+                 (_S, "        return self.fail\n\n    def _objfunc", "        return failed\n\n    def _objfunc")]),
     # ---- second robustness round: builder helpers, tuple conditionals, early returns, conditional returns
     Twin('twin-builder-helper-tuple-conditional', _S, _NL_BODY_OLD, **_builder_shape()),
     Mutant('newbounds-builder-clamp-min', _S, _NL_BODY_OLD, expect='C21.newbounds',
